@@ -329,6 +329,9 @@ def build(term, ctx, path="r", batch=None):
         cb = kw.get("cb", None)
         if cb == "ones":  # a constant that broadcasts through size-1 batch dimensions against the operator's batch shape
             cb = tuple(1 for _ in a.dense.shape[:-2])
+        if cb == "lead":  # the leading batch dimension is real, the following ones are size-1 (a singleton after a non-singleton dimension)
+            bs_ = a.dense.shape[:-2]
+            cb = tuple(bs_[:1]) + tuple(1 for _ in bs_[1:])
         cb = tuple(cb) if cb is not None else a.dense.shape[:-2]
         c = leaf(ctx, path + ".c", {"pos": "pos", "neg": "pos", "mixed": "int"}[ck], (), cb)
         cc = -c if ck == "neg" else c
@@ -497,6 +500,8 @@ def catalogue(n=3, include_rect=True):
         "Kron": ["Kron", {}, D(2, kind="psd"), D(n, kind="psd")],
         "Kron3": ["Kron", {}, D(2, kind="psd"), D(2, kind="psd"), D(2, kind="psd")],
         "KronGen": ["Kron", {}, D(2), D(n)],
+        # lazy identity factors (structured classes tend to special-case them)
+        "KronIdLeft": ["Kron", {}, ["Identity", {"n": 2}], D(n, kind="psd")], "KronIdRight": ["Kron", {}, D(n, kind="psd"), ["Identity", {"n": 2}]],
         "KronTriL": ["KronTri", {"upper": False}, ["TriT", {"n": 2}], ["TriT", {"n": n}]],
         "KronTriU": ["KronTri", {"upper": True}, ["TriT", {"n": 2, "upper": True}], ["TriT", {"n": n, "upper": True}]],
         "KronDiag": ["KronDiag", {}, ["Diag", {"n": 2}], ["Diag", {"n": n}]],
@@ -523,6 +528,7 @@ def catalogue(n=3, include_rect=True):
         "Mul": ["Mul", {}, P, ["Toeplitz", {"n": n}]],
         "ConstMul": ["ConstMul", {"c": "pos"}, D(n)], "ConstMulNeg": ["ConstMul", {"c": "neg"}, P],
         "ConstMulPSD": ["ConstMul", {"c": "pos"}, P], "ConstMulBcast": ["ConstMul", {"c": "pos", "cb": "ones"}, D(n)],
+        "ConstMulBcastLead": ["ConstMul", {"c": "pos", "cb": "lead"}, ["Toeplitz", {"n": n}]],
         # operands whose batch shapes only broadcast against each other (unbatched / size-1 batch dimensions next to a batched operand)
         "SumBcast": ["Sum", {}, D(n), ["Toeplitz", {"n": n, "lb": []}]],
         "AddedDiagBcast": ["AddedDiag", {}, P, ["Diag", {"n": n, "lb": "ones"}]],
